@@ -36,9 +36,9 @@ func init() {
 }
 
 // Concrete command integers of the specification's abstract commands.
-var CmdInt = map[string]int{"R": 71001, "W": 71002, "A": 71003, "X": 71004, "U": 71005}
+var CmdInt = map[string]int{"R": 71001, "W": 71002, "A": 71003, "X": 71004, "U": 71005, "I": 71006}
 
-var cmdName = map[int]string{71001: "R", 71002: "W", 71003: "A", 71004: "X", 71005: "U"}
+var cmdName = map[int]string{71001: "R", 71002: "W", 71003: "A", 71004: "X", 71005: "U", 71006: "I"}
 
 const (
 	serverSinful = "<10.9.0.1:9618>"
@@ -152,6 +152,8 @@ func policyOf(t int, cmd string) levels {
 			return levels{req, opt, opt}
 		case "A":
 			return levels{req, req, req}
+		case "I":
+			return levels{opt, opt, req} // integrity only
 		}
 		return levels{opt, opt, opt}
 	}
@@ -162,11 +164,13 @@ func policyOf(t int, cmd string) levels {
 		return levels{req, prf, opt}
 	case "A":
 		return levels{prf, req, opt}
+	case "I":
+		return levels{opt, prf, req}
 	}
 	return levels{opt, opt, opt}
 }
 
-var perms = map[string][]string{"R": {"READ"}, "W": {"WRITE"}, "A": {"ADMIN", "DAEMON"}}
+var perms = map[string][]string{"R": {"READ"}, "W": {"WRITE"}, "A": {"ADMIN", "DAEMON"}, "I": {"READ"}}
 
 func authzOf(t int, user string) map[string]bool {
 	set := func(l ...string) map[string]bool {
@@ -216,9 +220,9 @@ type world struct {
 	hch       chan handlerObs
 	cache     *security.SessionCache   // the cache of the client now connecting (a fresh one per Connect)
 	sidCache  []*security.SessionCache // model sid -> the client cache that holds it
-	sids      []string               // model sid -> real session id ("" = not learned)
-	sidKind   []string               // model sid -> kind of the client that established it
-	srvSids   []string               // to drop from the global cache afterwards
+	sids      []string                 // model sid -> real session id ("" = not learned)
+	sidKind   []string                 // model sid -> kind of the client that established it
+	srvSids   []string                 // to drop from the global cache afterwards
 	res       *Result
 	ctx       context.Context
 	cancel    context.CancelFunc
@@ -281,7 +285,7 @@ func newWorld(res *Result) *world {
 		}
 		return authzOf(t, user)[perm]
 	}
-	for _, name := range []string{"R", "W", "A"} {
+	for _, name := range []string{"R", "W", "A", "I"} {
 		w.srv.Handle(CmdInt[name], w.handler("auth", CmdInt[name]), perms[name]...)
 	}
 	w.srv.HandleRaw(CmdInt["X"], w.handler("raw", CmdInt["X"]))
@@ -465,6 +469,9 @@ func (w *world) clientCfg(kind, want string, cmd int) *security.SecurityConfig {
 		TrustDomain:   claimDomain,
 		Integrity:     opt,
 	}
+	if kind == "noCipher" {
+		cfg.CryptoMethods = nil // no cipher in common with the server: the session cannot be keyed
+	}
 	lvl := opt
 	if want == "strong" {
 		lvl = req
@@ -642,7 +649,7 @@ func (w *world) connect(s Step, disp *Step) {
 			w.dev("connect %s client %s: server attributes identity %q, the client proved %q", s.Cmd, s.Kind, o.user, s.User)
 		}
 	case ev.Ok:
-		ev.EncReal = lc.st.IsEncrypted() && s.Kind != "skipsKeyAgreement" &&
+		ev.EncReal = lc.st.IsEncrypted() && s.Kind != "skipsKeyAgreement" && s.Kind != "noCipher" &&
 			!bytes.Contains(lc.srv.Sent(), []byte("ValidCommands"))
 	}
 	if !ev.Ok {
